@@ -50,6 +50,8 @@ CHANGES = {
     "noise-trim-keeps-19": [("nmea2000/ioclient.py", """                keep = 1 if self._buffer.endswith(b"\\xaa") else 0
                 del self._buffer[:len(self._buffer) - keep]""", """                keep = min(len(self._buffer), 19)
                 del self._buffer[:len(self._buffer) - keep]""")],
+    "close-old-writer-on-reconnect": [("nmea2000/ioclient.py", "                    await self._connect_impl()", "                    if self.writer is not None:\n                        self.writer.close()\n                    await self._connect_impl()")],
+    "identity-map-str-keys": [("nmea2000/decoder.py", "self.source_to_iso_name.get(src, None)", "self.source_to_iso_name.get(src)")],
     "hash-upper-bits-same": [("nmea2000/message.py", "self.hash = hashlib.md5(primary_key.encode()).hexdigest()", "self.hash = hashlib.md5(primary_key.encode('utf-8')).hexdigest().lower()")],
 }
 
